@@ -57,7 +57,7 @@ def main():
     meta["confirmed"] = ok
     det = {}
     for c in checks:
-        rc, out = sh("./check %s --tier quick" % c, cwd=V, env={"VERIF_REPO": wt}, timeout=3600)
+        rc, out = sh("./check %s --tier quick" % c, cwd=V, env={"VERIF_REPO": wt, "VERIF_SCRATCH": os.path.join(wt, ".verif_scratch")}, timeout=3600)
         vio = [l for l in out.splitlines() if l.startswith("VIOLATION") or "signature=" in l]
         det[c] = {"exit": rc, "violations": [v[:300] for v in vio[:12]]}
         meta["ran"].append("VERIF_REPO=%s ./check %s --tier quick -> exit %d" % (wt, c, rc))
